@@ -203,8 +203,11 @@ def check_C04(tier):
 
 
 def check_C05(tier):
-    return run_level_check("C05", tier, ["core_noisy", "core_det", "cons"],
-                           design_cfgs=("BadsRun_noisy.cfg",))
+    v = run_level_check("C05", tier, ["core_noisy", "core_det", "cons", "optvar"],
+                        design_cfgs=("BadsRun_noisy.cfg",))
+    # FinalSamplesTaken and the budget with the reserve hold for every Budget / NFinal (Apalache)
+    _inductive(v, "C05")
+    return v
 
 
 def check_C13(tier):
